@@ -88,9 +88,10 @@ CLAIMS = {
              "get_storage_buffers_for_row returns for each column None iff its offset is negative, else the slice "
              "[scale*offset : scale*next present offset or end] with scale 4 iff wide offsets (nested loop invariants, any row "
              "length) - so both offset encodings read the same cells; storage_buffers decodes every row from ITS OWN record (buffer, offsets and "
-             "offset width of the same row record, per-iteration obligation for any tiles and rows); is_iwa_file (C17) and _decompress_all "
+             "offset width of the same row record, buffer k from the record at flat position k, for any tiles and rows); row_storage_map maps the row each record "
+             "declares to that record's flat position, one store per record whatever it holds; is_iwa_file (C17) and _decompress_all "
              "(C05) re-verified for chunk boundaries; complete syntactic obligation that the rich-text lookup cannot leave its scan before "
-             "the wanted key. Zip order/method, package form and whole documents: bounded stand-in (11 rewrites x fixtures + a self-written "
+             "the wanted key. Zip order/method, package form and whole documents: bounded stand-in (12 rewrites x fixtures incl. explicit cell-less row records + a self-written "
              "large document).",
         note="Assumes: ghost view of TST.TableDataList (entries list + heap fields), protobuf object-store lookups bound to that view, "
              "A-PB for the ListEntry constructor, @cache on add_table (IDX as class invariant), array('h', offsets) identity on int16. "
@@ -110,6 +111,7 @@ CLAIMS = {
              "value, falsy ones included): Table.write(r, c, default) is called for exactly the cells of the inserted block and no other "
              "(loop invariants over a ghost call map, grid abstracted away; Table.write itself is C12's contract). Table and sheet "
              "additions, isolation across tables/documents and save/reopen equality: bounded lock-step reference-grid stand-in.",
+        text2="Re-verified here: C07's recalculate_table_data / recalculate_row_info contracts (a table grown past one 256-row tile is stored completely).",
         note="Assumes: T-INV+ as class invariant, Cell._empty_cell returns a freshly allocated cell carrying its coordinates (assumed "
              "contract + allocation model), model.number_of_rows/columns only record sizes, default=None in the add_* proofs. One "
              "genuine defect repaired (count validation). Trusted: " + TB,
@@ -126,6 +128,7 @@ CLAIMS = {
              ">= 65536 (open known finding, replayed on a real save/reopen), so not every obligation is discharged and the level is not 'proof'. "
              "Whole documents (reload, writes, insert/delete after the merge, several saves with merges in between): bounded stand-in over all "
              "rectangles of a 4x4 (6x6) table.",
+        text2="Also: calculate_merge_cell_ranges (what a reopened document reports; seven loop cuts): every rectangle of the stored region map and every merge-owner record of the table is registered with its unpacked anchor and size and one reference per covered cell, whatever was registered before.",
         note="Assumes: xl_range and xl_cell_to_rowcol through their C10 contracts (the range text is split by an opaque expression); MergeCells "
              "as a ghost record. One genuine defect repaired (merge_cells converted only interior cells), two recorded as open known findings "
              "(merge map not shifted by insert/delete; 16-bit packing vs 1,000,000 rows). Trusted: " + TB,
@@ -171,6 +174,7 @@ CLAIMS = {
              "type to the method proved for its glyph (complete syntactic check); every memoised method of the package keys its cache on all of its parameters (complete syntactic check, so rendering a formula for one cell cannot return another cell's text). 'The text, read with conventional precedence, is the "
              "stored tree' and number/date/reference literals: bounded stand-in with an independent precedence parser over generated "
              "trees - it reports one open known finding (number literals >= 1e16), so the level is not 'proof'.",
+        text2="Also: number_to_str returns the literal's shortest round-trip spelling unchanged when it has no exponent (A-REPR).",
         note="Assumes: ghost view of the stack list, popn/push/pop inlined, z3 str.replace_all for str.replace, model.table_name opaque. "
              "Open known finding F-C08-1 (not repaired: the pinned test fixture expects the defective text). Trusted: " + TB,
         technique="contract-based deductive verification of the per-node stack transitions + bounded render/parse-back stand-in (mixed)"),
@@ -185,6 +189,7 @@ CLAIMS = {
              "any number of sheets/tables with sibling-unique names the chosen qualification resolves to the stored table only and no "
              "shorter one does. Header labels, whole-row/column tracts, cross-table UUID lookup, quoting, and rename/relabel histories: "
              "bounded stand-in with an independent resolver, so the level is not 'proof'.",
+        text2="Also: ScopedNameRefCache._column_data/_row_data: the label of a column / row is the cell in the bottom header row / last header column (any number of header rows and columns).",
         note="Assumes: protobuf nodes as records with HasField; CellRange(...) records its keyword arguments; naming functions uninterpreted "
              "in the lemmas. Trusted: " + TB,
         technique="contract-based deductive verification (path-complete symbolic execution of node_to_ref/expand_ref/_format_cell_range + "
@@ -202,6 +207,7 @@ CLAIMS = {
              "once). The statement is end to end (write, save, reopen): that composition through "
              "recalculate_table_data, the tile writer and the container is a bounded stand-in (1M codec values, 6 types x 300 values x "
              "positions incl. beyond the table), so the level is not 'proof'.",
+        text2="Also: Complete structural obligation: methods that obtain keys of a lookup list which every save empties are not memoised.",
         note="Assumes A-REPR (shortest spelling; correctly rounded int/int division and float(int)), A-DT (CPython datetime arithmetic), "
              "sigfig.round uninterpreted. One genuine defect repaired: fix: commit 5fd0efc (decimal128 codec went through float log/pow/"
              "division; 12, 50, 52, 0.12 came back one ulp off). Trusted: " + TB,
@@ -254,6 +260,7 @@ CLAIMS = {
              "channel values survive the stored c/255 form, "
              "font family and name tables are mutually inverse. Stroke runs in the file, style archives, merged cells and reload: bounded "
              "stand-in with a last-writer-wins edge model, so the level is not 'proof'.",
+        text2="Also: update_paragraph_style: every text field of an existing archive takes the style's current value (17 fields, also 0.0 / False).",
         note="Assumes Border/CellBorder as heap records, cell_for_stroke uninterpreted, dataclass init through __setattr__. Genuine defects "
              "repaired: fix: commits 6c9657a (stroke ordered after the cells were updated: second stroke over an edge ignored by the open "
              "document) and 85673dd (reading cell.style marked the style as changed). Trusted: " + TB,
@@ -270,6 +277,7 @@ CLAIMS = {
              "writer drifts; complete syntactic obligation (shared with C07) that every object add_table creates is made the target of a reference, so a "
              "new table has its own header storage. The readers' float arithmetic, names, captions, header counts, coordinates and whole documents over 1..3 cycles: "
              "bounded stand-in, so the level is not 'proof'.",
+        text2="Also: Complete frame obligation: the stored header counts are assigned only in their two setters.",
         note="Assumes ghost records for protobuf header lists and session caches, sizes as integers, floor(border allowance) uninterpreted. Genuine "
              "defect repaired: fix: commit 08975f9 (unqueried row heights were written as 0.0 = default; sizes of bordered rows/columns grew on "
              "every save). Trusted: " + TB,
@@ -288,6 +296,7 @@ CLAIMS = {
              "for clock fields; every day of 33 years incl. century years for date fields - a sample of the date domain); format validation "
              "uses the same table. Arbitrary compositions of parts and _duration_format (float division per unit) are a bounded stand-in with "
              "an independent oracle and a display-parse-back check, so the level is not 'proof'.",
+        text2="Also: Cell._duration_format for every whole number of seconds below 2**53, explicit units, short and long style: the components are the mixed-radix digits of the duration over the shown units (lemma FDIV-TRUNC assumed and sampled).",
         note="str.isalpha on one character is uninterpreted except that the quote is not a letter; _decode_date_format_field total by assumption. "
              "Genuine defects repaired: fix: commits d3185f4 (k/kk printed 124 for 10:00), 2615b0e (automatic units for whole weeks), 6291058 "
              "(escaped quote emitted before the pending directive), e49d46d (documentation of y). Trusted: " + TB,
@@ -342,7 +351,7 @@ for p in PROPS:
         c = CLAIMS[p]
         m["checks"].append({"property_id": p, "quick_cmd": f"./check {p} --tier quick", "thorough_cmd": f"./check {p} --tier thorough",
                             "evidence_file": f"evidence/{p}.json", "replay_cmd_template": f"./check {p} --replay {{path}}",
-                            "engine": "pyvc", "level_claimed": {"category": c["category"], "text": c["text"], "design_ref": c["design"]},
+                            "engine": "pyvc", "level_claimed": {"category": c["category"], "text": c["text"] + (" " + c["text2"] if c.get("text2") else ""), "design_ref": c["design"]},
                             "level_note": c["note"], "technique": c["technique"]})
     else:
         m["not_applicable"].append({"property_id": p, "reason": NA_REASON})
